@@ -351,8 +351,8 @@ PROPS["C05"] = dict(
           "L8 (SHN_XINDEX string table, sh_entsize gates of symtab/dynsym/.dynamic): section tables of 1..2 entries with every header field symbolic"),
         M(["L8both", "L9"], ["C05.", "L8.", "C13.versym"], tier="thorough", bounds="L8 for both classes; .gnu.version entsize gate"),
         K("core", ["c05::"], tier="thorough", functions=["ElfBytes::minimal_parse", "find_shdrs", "find_phdrs", "SectionHeaderTable::get", "SegmentTable::get"],
-          bounds="file <= 200 symbolic bytes, ELF64 LE, plain numbering; get(i) compared with the ABI record at off+i*entsize", timeout_s=3300, jobs=2),
-        K("core", ["c05t::"], tier="thorough", functions=["same, extended numbering (e_shnum==0, e_phnum==0xffff), ELF32"], bounds="file <= 200 symbolic bytes", timeout_s=3300, jobs=2),
+          bounds="file <= 144 symbolic bytes, ELF64 LE, plain numbering; Ok-iff oracle, len(), first/last word of entry i vs the raw bytes at off+i*entsize", timeout_s=3300, jobs=2),
+        K("core", ["c05t::"], tier="thorough", functions=["same, extended numbering (e_shnum==0, e_phnum==0xffff), ELF32"], bounds="file <= 144 symbolic bytes", timeout_s=3300, jobs=2),
     ],
     assumptions=MIRSYM_ASSUME,
 )
